@@ -989,7 +989,7 @@ func runStep(w *world, s *stepT, prevAudit interface{}, done []stepT, rp *report
 		sig += "-closed"
 	} else if st == "STALL" {
 		sig += "-stall"
-	} else if okR && !okA {
+	} else if okR && !okA && !namedClass(sig) {
 		sig += "/audit"
 	}
 	line, _ := wire(&s.Cmd)
@@ -1018,6 +1018,18 @@ func runStep(w *world, s *stepT, prevAudit interface{}, done []stepT, rp *report
 	steps[len(steps)-1].Audit = expAudit
 	rp.mismatch(sig, detail, M{"steps": steps})
 	return false, expAudit
+}
+
+// namedClass: signatures MemModel!Sig gives to a specific class of command-in-state (they are
+// reported as they are); the others are just the command name and get "/audit" when only the
+// audit differs.
+func namedClass(sig string) bool {
+	for _, p := range []string{"uid-star/", "partial/", "copyuid/", "examine/", "rename/", "lsub/"} {
+		if strings.HasPrefix(sig, p) {
+			return true
+		}
+	}
+	return false
 }
 
 // trimWires drops the harness's own sync/audit commands from the report
